@@ -1549,6 +1549,14 @@ def _run(ctx, drv, pdrv, workdir, t0):
         d = dict(nesting_cases([n]))
         for nm in chain:
             ccs.append(Case("P.%s.%d" % (nm, n), "nest:" + nm, d[nm], "str", None, {"n": n}))
+    # right-nested constructs are bounded by the parser's stack limit (bison YYMAXDEPTH: 'memory exhausted' at
+    # depth 10000); far beyond that limit they must still be diagnosed, not crash the recursive passes
+    nested = ["parens", "blocks", "arrays", "calls", "unary-minus", "unary-not", "binop-right-chain", "cond-chain",
+              "if-else-chain", "nested-funcs", "nested-lambdas", "while-nest"]
+    for n in [100000, 250000] + ([1000000] if thorough else []):
+        d = dict(nesting_cases([n]))
+        for nm in nested:
+            ccs.append(Case("P.%s.%d" % (nm, n), "nest:" + nm, d[nm], "str", None, {"n": n}))
     died, pobs = confirm_on_plain(pdrv, workdir, ccs, timeout=60)
     pver = classify([o for o in pobs.values()])
     chain_dead = {}
